@@ -65,7 +65,7 @@ func (a *batchAgg) toCase(prop string, seed uint64) *CaseResult {
 }
 
 func raceBinary() (string, bool) {
-	p := filepath.Join(verifDir, ".build", "hermes2go_race")
+	p := filepath.Join(buildDir(), "hermes2go_race")
 	_, err := os.Stat(p)
 	return p, err == nil
 }
@@ -542,7 +542,7 @@ type poolResult struct {
 
 func runPoolHistory(seed uint64, tier string) *poolResult {
 	out := &poolResult{Cov: map[string]int64{}}
-	bin := filepath.Join(verifDir, ".build", "vmon_race")
+	bin := filepath.Join(buildDir(), "vmon_race")
 	if _, err := os.Stat(bin); err != nil {
 		out.Inconclusive = "race build of the harness not available"
 		return out
